@@ -107,7 +107,39 @@ class ExprMixin(object):
         if info is not None:
             names = [c.name for c in info.mro()]
         ty = REG.field_type(names, field)
+        if ty is None and info is not None:
+            ty = self.infer_field_type(info, field)
+            if ty is not None:
+                REG.fields[(cname, field)] = ty
+                REG.any_field.setdefault(field, ty)
+                self.explorer.auto_fields.add("%s.%s:%r (inferred from its initialiser)" % (cname, field, ty))
         return ty
+
+    def infer_field_type(self, info, field):
+        """An attribute that no sidecar declares (e.g. one introduced by an edit): take its type from a literal
+        initialiser ``self.<field> = <constant>`` found in the class or its bases."""
+        import ast as _ast
+        for c in info.mro():
+            for fn in c.methods.values():
+                for node in _ast.walk(fn):
+                    if isinstance(node, _ast.Assign) and len(node.targets) == 1:
+                        t = node.targets[0]
+                        if isinstance(t, _ast.Attribute) and t.attr == field and isinstance(t.value, _ast.Name) \
+                                and t.value.id == "self":
+                            v = node.value
+                            if isinstance(v, _ast.Constant):
+                                if isinstance(v.value, bool):
+                                    return T_BOOL
+                                if isinstance(v.value, float):
+                                    return T_FLOAT
+                                if isinstance(v.value, int):
+                                    return T_INT
+                            if isinstance(v, _ast.List) and not v.elts:
+                                return Ty("list", [T_ANY])
+                            if isinstance(v, _ast.UnaryOp) and isinstance(v.operand, _ast.Constant) and \
+                                    isinstance(v.operand.value, float):
+                                return T_FLOAT
+        return None
 
     # ------------------------------------------------------------------ arithmetic
     def arith(self, op, a, b, spec):
